@@ -95,6 +95,17 @@ CHECKS["C09"] = dict(cat="translation_validation", ref="4 C09 / 11.7", engine="p
    note="Trusted: Z3 4.13.0 (also the simplifier under the round trip: C09 tests claripy's use of it), the z3py reference interpreter, z3py constructors for the "
         "operator-map leg. Constants are NOT quantified (they cross libz3): they are witnesses generated by the solver per construction path plus boundary "
         "values; Z3 rewrites that only fire on other constants are outside the claim. unknown (20 s cap) = inconclusive.")
+CHECKS["C08"] = dict(cat="translation_validation", ref="4 C08 / 11.8", engine="pysym",
+   text="replace / replace_dict (variables: exact simultaneous substitution incl. swaps and leaf_operation, against z3.substitute; sub-expressions: "
+        "(old == new) => result == e and old no longer occurs), canonicalize (injective sort-preserving renaming onto fresh names; renamed back equals the "
+        "original), excavate_ite / burrow_ite (first, cached and repeated application equivalent to the written tree, 108 If-laden shapes), ite_cases / "
+        "ite_dict (first-match nested z3.If), reverse_ite_cases (exactly one condition holds and carries the expression's value), chop / get_bytes / "
+        "get_byte (Extract specifications at byte and non-byte widths), identical (True only if equal under some sort-respecting renaming). All run on "
+        "symbolic constants through the real code; Z3 decides each specification per path for all constants and variable assignments.",
+   technique="symbolic execution of the real Python code on int shadows + Z3 equivalence query against an independently built specification term per path",
+   note=EXPR_NOTE + " C08 specific: table keys of ite_dict are concrete (dictionary keys); at most three constants of a case list are symbolic (the "
+        "constant-identity wrapper forks on every pair). Known finding C08-bv-identical-vsa (BV.identical compares VSA abstractions) is excluded only when "
+        "the True answer provably came from the VSA comparison.")
 NOT_YET = {}
 NA = {
  "C20": "Real OS-thread preemption inside CPython and libz3 cannot be encoded by any engine available here; a stress run would be sampling, i.e. a different technique (DESIGN.md section 5).",
